@@ -5272,14 +5272,15 @@ class PyCdlib:
         if boot_dirrecord.inode is None:
             raise pycdlibexception.PyCdlibInternalError('Tried to add an empty boot dirrecord inode to the El Torito boot catalog')
 
+        # Everything that can be refused is done first; the object is only
+        # changed once nothing can fail any more.
+        bi_table = None
         if boot_info_table:
             orig_len = boot_dirrecord.get_data_length()
             bi_table = eltorito.EltoritoBootInfoTable()
             with inode.InodeOpenData(boot_dirrecord.inode, self.logical_block_size) as (data_fp, data_len):
                 bi_table.new(self.pvd, boot_dirrecord.inode, orig_len,
                              self._calculate_eltorito_boot_info_table_csum(data_fp, data_len))
-
-            boot_dirrecord.inode.add_boot_info_table(bi_table)
 
         system_type = 0
         if media_name == 'hdemul':
@@ -5299,22 +5300,6 @@ class PyCdlib:
                                                    bootable)
         else:
             # Step 2.
-            br = headervd.BootRecord()
-            br.new(b'EL TORITO SPECIFICATION')
-            self.brs.append(br)
-            # On a UDF ISO, adding a new Boot Record doesn't actually increase
-            # the size, since there are a bunch of gaps at the beginning.
-            if not self._has_udf:
-                num_bytes_to_add += self.logical_block_size
-
-            # Step 3.
-            self.eltorito_boot_catalog = eltorito.EltoritoBootCatalog(br)
-            self.eltorito_boot_catalog.new(br, boot_dirrecord.inode,
-                                           sector_count, boot_load_seg,
-                                           media_name, system_type, platform_id,
-                                           bootable)
-
-            # Step 4.
             rrname = ''
             if self.rock_ridge:
                 if rr_bootcatname is None:
@@ -5322,10 +5307,36 @@ class PyCdlib:
                 else:
                     rrname = rr_bootcatname
 
+            # Make sure the Boot Catalog can get its names before the Boot
+            # Record and the Boot Catalog become part of the ISO.
+            self._check_new_paths(bootcatfile, joliet_bootcatfile, udf_bootcatfile)
+            self._check_rr_name(rrname)
+
+            br = headervd.BootRecord()
+            br.new(b'EL TORITO SPECIFICATION')
+
+            # Step 3.
+            new_boot_catalog = eltorito.EltoritoBootCatalog(br)
+            new_boot_catalog.new(br, boot_dirrecord.inode,
+                                 sector_count, boot_load_seg,
+                                 media_name, system_type, platform_id,
+                                 bootable)
+
+            self.brs.append(br)
+            self.eltorito_boot_catalog = new_boot_catalog
+            # On a UDF ISO, adding a new Boot Record doesn't actually increase
+            # the size, since there are a bunch of gaps at the beginning.
+            if not self._has_udf:
+                num_bytes_to_add += self.logical_block_size
+
+            # Step 4.
             num_bytes_to_add += self._add_fp(None, self.logical_block_size,
                                              False, bootcatfile, rrname,
                                              joliet_bootcatfile,
                                              udf_bootcatfile, None, True)
+
+        if bi_table is not None:
+            boot_dirrecord.inode.add_boot_info_table(bi_table)
 
         self._finish_add(0, num_bytes_to_add)
 
